@@ -46,6 +46,8 @@ type BatchSpec struct {
 	SchedSeed uint64  `json:"sched_seed,omitempty"`
 	PreemptA  int     `json:"preempt_a,omitempty"`
 	PreemptK  int     `json:"preempt_k,omitempty"`
+	PreemptB  int     `json:"preempt_b,omitempty"`
+	PreemptKB int     `json:"preempt_kb,omitempty"`
 	Decisions []int   `json:"decisions,omitempty"` // recorded / to replay
 	Faults    []Fault `json:"faults,omitempty"`
 }
